@@ -333,7 +333,10 @@ vwin vw_make(const pm *content, int make_window, int rowoff, int wordoff, int tr
   vwin w; memset(&w, 0, sizeof w);
   w.r = content->r; w.c = content->c; w.rowoff = rowoff; w.wordoff = wordoff; w.trailw = trailw; w.trailr = trailr; w.fill = fill;
   if (!make_window) { w.view = mzd_from_pm(content); w.parent = NULL; return w; }
-  int pc = 64 * wordoff + (trailw ? 64 * ((content->c + 63) / 64) + 64 * trailw : content->c);
+  int pc;
+  if (trailw < 0) { /* the parent extends beyond the view inside the SAME last word only (rowstride can equal the view's width) */
+    int room = 64 * ((content->c + 63) / 64) - content->c; pc = 64 * wordoff + content->c + (room + 1) / 2; trailw = 0;
+  } else pc = 64 * wordoff + (trailw ? 64 * ((content->c + 63) / 64) + 64 * trailw : content->c);
   int pr = rowoff + content->r + trailr;
   pm *P = pm_pat(pr, pc, fill == 0 ? (pat){P_Z, 0, 0} : fill == 1 ? (pat){P_O, 0, 0} : (pat){P_PR, 0, 77 + rowoff + wordoff});
   for (int i = 0; i < content->r; i++) for (int j = 0; j < content->c; j++) pm_set(P, rowoff + i, 64 * wordoff + j, pm_get(content, i, j));
